@@ -6,7 +6,7 @@ from typing import Optional
 
 import numpy as np
 
-from .embed import NAN, NEGINF, POSINF, UNKNOWN, PosEmb, WEmb, feq, isnan
+from .embed import NAN, NEGINF, POSINF, UNKNOWN, InputGuard, PosEmb, WEmb, feq, isnan
 from .replay import Adapter, Mismatch
 
 NONE_RET = -7
@@ -101,6 +101,7 @@ class Hist1DAdapter(Adapter):
 
     def apply(self, real, action, args, pre):
         obs = {"exc": None, "ret": None}
+        guard = InputGuard()
         try:
             if action == "NewEmpty":
                 L, keep = args
@@ -115,12 +116,15 @@ class Hist1DAdapter(Adapter):
                 cont = self._container(vals)
                 if w is not None and isinstance(cont, np.ndarray) and cont.ndim == 2:
                     w = np.asarray(w).reshape(cont.shape)
-                real = self.physt.h1(cont, self._bins_arg(L), weights=w, keep_missed=keep)
+                real = self.physt.h1(guard.track(cont), self._bins_arg(L), weights=guard.track(w), keep_missed=keep)
             elif action == "Fill":
                 p, w, r = args
                 x = self.pe.x(p)
                 if w == 1 and self.we.den == 1 and self.we.num == 1 and self.we.kind == "pyint":
-                    if self.spelling % 2 == 1 and True:
+                    if self.spelling % 4 == 3:
+                        real << x                      # the operator alias of fill (it returns nothing)
+                        obs["ret"] = real.find_bin(x)
+                    elif self.spelling % 2 == 1:
                         obs["ret"] = real.fill(x)
                     else:
                         obs["ret"] = real.fill(x, 1)
@@ -130,7 +134,7 @@ class Hist1DAdapter(Adapter):
                 batch, weighted = args
                 vals = self._values(batch)
                 w = self._weights(batch, weighted)
-                obs["ret"] = real.fill_n(self._container(vals) if self.spelling % 4 != 3 else np.array(vals, dtype=float), weights=w)
+                obs["ret"] = real.fill_n(guard.track(self._container(vals) if self.spelling % 4 != 3 else np.array(vals, dtype=float)), weights=guard.track(w))
             elif action == "FindBin":
                 p, r = args
                 obs["ret"] = real.find_bin(self.pe.x(p))
@@ -140,6 +144,7 @@ class Hist1DAdapter(Adapter):
             if isinstance(ex, RuntimeError) and str(ex).startswith("unknown action"):
                 raise
             obs["exc"] = f"{type(ex).__name__}: {ex}"
+        obs["inputs_changed"] = guard.changed()
         return real, obs
 
     def build(self, state):
@@ -176,6 +181,8 @@ class Hist1DAdapter(Adapter):
         h = post["h"]
         if obs["exc"] is not None:
             return Mismatch(["accepted"], {"raised": obs["exc"]})
+        if obs.get("inputs_changed"):
+            bad.append("inputs"); det["inputs"] = obs["inputs_changed"][:2]      # the caller's arrays were overwritten
         if action in ("Fill", "FindBin") and "ret" in view:
             p, r = args[0], args[-1]
             exp = None if r == NONE_RET else r
